@@ -26,17 +26,32 @@ PLAIN_KEYS = ["a", "b", "msg", "x_y", "detail", "args", "kwargs", "message", "k9
 SPECIAL_KEYS = ["traceback", "error", "self"] + RESERVED
 CTORS = ["plain", "kw", "noarg", "kwonly", "raiseT", "raiseV", "raiseK", "falsy", "withcallee", "readonly"]
 CKIND = {"plain": "CPlain", None: "CPlain", "kw": "CKw", "noarg": "CNoArg", "kwonly": "CKwOnly", "raiseT": "CRaise",
-         "raiseV": "CRaise", "raiseK": "CRaise", "falsy": "CFalsy", "withcallee": "CWithCallee", "readonly": "CReadOnly"}
+         "raiseV": "CRaise", "raiseK": "CRaise", "falsy": "CFalsy", "withcallee": "CWithCallee", "readonly": "CReadOnly",
+         "appsub": "CAppSub"}
 PATTERN_OK = re.compile(r"^[a-z0-9][a-z0-9_\-]*(\.[a-z0-9][a-z0-9_\-]*)*\Z")   # the documented exact-URI component grammar
 
 
 # ------------------------------------------------------------------ generator
 def gen_spec(rng, i):
+    sp = gen_spec0(rng, i)
+    r = rng.random()                     # the call-cancelling path: INTERRUPT while / after the endpoint fails
+    if r < 0.25:
+        sp.update(endpoint="async_cleanup", interrupt="during")
+    elif r < 0.33:
+        sp.update(endpoint="async_cleanup", interrupt=rng.choice(["none", "after"]))
+    elif r < 0.40:
+        sp.update(interrupt="after")
+    return sp
+
+
+def gen_spec0(rng, i):
     classes = {}
     for cid in range(10, 18):
         n_uris = rng.choice([0, 0, 1, 1, 1, 2])
         uris = rng.sample(GOOD_URIS, n_uris) if n_uris else None
         classes[str(cid)] = {"uris": uris, "ctor": rng.choice(CTORS)}
+        if cid >= 16:                       # classes 16, 17: subclasses of ApplicationError
+            classes[str(cid)].update(base="app", ctor="appsub")
 
     def ops():
         out = []
@@ -70,11 +85,18 @@ def gen_spec(rng, i):
     else:
         defined = [op[0] for op in callee_ops]
         cid = rng.choice(defined) if defined and rng.random() < 0.7 else rng.randrange(10, 18)
+        if rng.random() < 0.3:
+            cid = rng.choice([16, 17] + [c for c in defined if c >= 16] * 3)      # ApplicationError subclass, often define()d
         exc = {"cls": cid, "error": "", "kwargs": payload_kwargs(True)}
+        if cid >= 16:
+            # the instance carries its own URI: the registered one, or (mostly) another one
+            exc["error"] = rng.choice(GOOD_URIS + [BAD_PATTERN] + (classes[str(cid)]["uris"] or []))
+            exc["kwargs"] = exc["kwargs"] or []
     exc["args"] = [rng.randrange(len(VALUES)) for _ in range(rng.choice([0, 0, 1, 1, 2, 3, 5]))]
     return {"ser": ["json", "msgpack", "cbor"][i % 3], "classes": classes, "callee_ops": callee_ops,
             "caller_ops": caller_ops, "exc": exc, "tb": rng.random() < 0.35,
             "router_callee": 77 if rng.random() < 0.25 else None,
+            "endpoint": "sync", "interrupt": "none",
             "callee_hook": rng.choice(["returns", "returns", "raises", "raises_key"]),
             "caller_hook": rng.choice(["returns", "returns", "raises", "raises_key"])}
 
@@ -136,8 +158,9 @@ def coq_case(spec, obs):
     uris = set(op[1] for op in spec["callee_ops"] + spec["caller_ops"] if len(op) == 2)
     bad = sorted(u for u in uris if not PATTERN_OK.match(u))
     x = spec["exc"]
+    is_app = x["cls"] == "app" or cl.get(str(x["cls"]), {}).get("base") == "app"
     exn = "(mkExn %s %s %s %s %s)" % (
-        cN(0) if x["cls"] == "app" else cN(x["cls"]), "true" if x["cls"] == "app" else "false", cstr(x["error"]),
+        cN(0) if x["cls"] == "app" else cN(x["cls"]), "true" if is_app else "false", cstr(x["error"]),
         clist(cN(a) for a in x["args"]), copt(x["kwargs"], ckw))
     used = {str(o[0]) for o in spec["caller_ops"]}
     kinds = clist(["(%s, CPlain)" % cN(1), "(%s, CPlain)" % cN(2)] +
@@ -159,10 +182,10 @@ def coq_case(spec, obs):
         xd = "(XEscaped %s)" % obs["caller_raised"][0][1]
     else:
         xd = "XOther"
-    return ("(mkCase %s %s %s %s %s %s %s %s %s %s %s %s %s %s %s %s %s)" % (
+    return ("(mkCase %s %s %s %s %s %s %s %s %s %s %s %s %s %s %s %s %s %s)" % (
         clist(cstr(u) for u in bad), clist(cdefop(cl, o) for o in spec["callee_ops"]),
         clist(cdefop(cl, o) for o in spec["caller_ops"]), kinds, exn, "true" if spec["tb"] else "false",
-        "(Some %s)" % cN(TB), copt(spec.get("router_callee"), cN),
+        "(Some %s)" % cN(TB), copt(spec.get("router_callee"), cN), cN(1 if spec.get("interrupt") == "during" else 0),
         "HookRaises" if str(spec.get("callee_hook", "")).startswith("raises") else "HookReturns",
         "HookRaises" if str(spec.get("caller_hook", "")).startswith("raises") else "HookReturns",
         clist(cexc(r) for r in obs["callee_define"]), clist(cexc(r) for r in obs["caller_define"]),
@@ -194,18 +217,28 @@ def judge(spec, obs):
     w = obs.get("wire")
     if not w:
         key = "callee/no-ERROR-sent"
-        if str(spec.get("callee_hook", "")).startswith("raises") and obs.get("n_errors_sent") == 0:
+        if spec.get("interrupt") == "during" and obs.get("n_errors_sent") == 0:
+            key += "/endpoint-failed-after-INTERRUPT"
+        elif str(spec.get("callee_hook", "")).startswith("raises") and obs.get("n_errors_sent") == 0:
             key += "/onUserError-override-raised"
         return [(key, "the callee sent %s ERROR messages for one failed invocation (callee onUserError hook: %s; %s): the "
                  "caller's call never completes, the remote exception is lost" % (
             obs.get("n_errors_sent"), spec.get("callee_hook"), obs.get("callee_raised")))]
     # 1. URI
-    if x["cls"] == "app":
-        want_uri = x["error"]
+    is_app = x["cls"] == "app" or spec["classes"].get(str(x["cls"]), {}).get("base") == "app"
+    if is_app:
+        want_uri = x["error"]            # "the carried URI for application errors" — also for define()d subclasses
     else:
         want_uri = registered_uri(spec, spec["callee_ops"], x["cls"]) or RUNTIME_ERROR
     if w["uri"] != want_uri:
-        v.append(("callee/error-uri", "ERROR carries URI %r, expected %r" % (w["uri"], want_uri)))
+        sub = is_app and x["cls"] != "app"
+        v.append(("callee/error-uri" + ("/defined-ApplicationError-subclass" if sub else ""),
+                  "ERROR carries URI %r, expected %r%s" % (w["uri"], want_uri,
+                  " (instance of an ApplicationError subclass carrying its own URI)" if sub else "")))
+    if obs.get("invocations_left"):
+        v.append(("callee/invocation-record-left-behind", "self._invocations still holds %s after the ERROR" % obs["invocations_left"]))
+    if obs.get("callee_raised"):
+        v.append(("callee/onMessage/ESCAPED/%s" % obs["callee_raised"][0][2], "exception out of the callee's onMessage: %s" % obs["callee_raised"][0][2:4]))
     if w["rtype"] != 68 or w["request"] != 7001:
         v.append(("callee/error-request", "ERROR answers (%s,%s) instead of INVOCATION 7001" % (w["rtype"], w["request"])))
     # 2. payload on the wire
@@ -258,6 +291,10 @@ def judge(spec, obs):
         rk = None if ref["kwargs"] is None else dict(map(tuple, ref["kwargs"]))
         if d["args"] != ref["args"] or dk != rk:
             v.append(("caller/registered-class-payload", "instance of the registered class differs from cls(*args, **kwargs)"))
+        if spec["classes"].get(str(d["cls"]), {}).get("base") == "app" and d["args"] != (w["args"] or []):
+            v.append(("caller/registered-ApplicationError-subclass/first-argument-consumed-as-error-URI",
+                      "the class registered for %s is a subclass of ApplicationError: cls(*args) takes the first positional "
+                      "argument as .error, the caller sees args %s instead of %s" % (w["uri"], d["args"], w["args"])))
         return v
     if ref and "raises" not in ref and ref["truthy"]:
         v.append(("caller/registered-class-not-used", "class C%s is registered for %s and accepts the payload, "
@@ -301,6 +338,7 @@ def shrink(ck, fw, spec, key):
         for i in range(len(cur["exc"]["kwargs"] or [])):
             muts.append(lambda c, i=i: c["exc"]["kwargs"][i].__setitem__(1, 4) if i < len(c["exc"]["kwargs"]) else None)
         muts += [lambda c: c.update(ser="json"), lambda c: c.update(router_callee=None), lambda c: c.update(tb=False),
+                 lambda c: c.update(interrupt="none"), lambda c: c.update(endpoint="sync", interrupt="none"),
                  lambda c: c.update(caller_hook="returns"), lambda c: c.update(callee_hook="returns")]
 
         def prune(c):
@@ -337,6 +375,9 @@ def run(ck):
         "(incl. invalid ones) x exception (ApplicationError with carried URI | registered | unregistered class) x 0-5 args "
         "x kwargs (absent/empty/1-4 keys, 30% of trials drawing from traceback/error/self/enc_algo/callee/...) x "
         "onUserError override on callee and on caller (returns | raises RuntimeError | raises KeyError) x "
+        "2 of the 8 classes are ApplicationError subclasses (define()d or not, raised carrying the registered or another URI) x "
+        "endpoint (raises synchronously | inlineCallbacks/coroutine that survives the cancellation, cleans up asynchronously, "
+        "then raises) x INTERRUPT (none | while running | after the failure) x "
         "traceback forwarding x router-added callee detail. non-trivial = an ERROR was produced; distinct = distinct "
         "canonical trial (classes pruned to those used)")
     ck.extra_tb += [
